@@ -164,7 +164,12 @@ class Client(threading.Thread):
                             conn = None
                             if reused and attempt == 0:
                                 continue
-                            verdict = 'no response to %s %s on a fresh connection: %r' % (method, path, e)
+                            if isinstance(e, (socket.timeout, TimeoutError)):
+                                # a wall-clock limit of the client under load is not a verdict; whether the server still
+                                # answers is decided by the probe after the burst, when the load has stopped
+                                verdict = 'INCONCLUSIVE no answer within the 120 s of the client while the burst was running'
+                            else:
+                                verdict = 'no response to %s %s on a fresh connection: %r' % (method, path, e)
                             status = -1
                             break
                     if verdict is None:
@@ -439,7 +444,7 @@ def run_shard(ctx, shard):
             for (t0, t1, kind, status, verdict, req) in results:
                 ctx.note(key_of(shard['name'], burst, t0), True, 'requests', 'kind_' + kind, 'status_%s' % status)
                 if verdict and verdict.startswith('INCONCLUSIVE'):
-                    ctx.inconclusive['oversized body: connection reset before the status could be read'] += 1
+                    ctx.inconclusive['no answer within the client timeout under load' if 'client' in verdict else 'oversized body: connection reset before the status could be read'] += 1
                 elif verdict:
                     small = {k: (v if not isinstance(v, (bytes, list)) else repr(v)[:400]) for k, v in req.items()}
                     ctx._violation({'request': small, 'concurrent_clients': nclients}, verdict + ' (with %d concurrent clients)' % nclients)
